@@ -325,6 +325,11 @@ func (s *Session) bind(o *Config) {
 		s.err = errors.New("iq bind result expected, got " + iq.XMLName.Space + " " + iq.XMLName.Local + " of type " + string(iq.Type))
 		return
 	}
+	// ... and it has to answer THIS request (RFC 6120 8.2.3: the response carries the id of the request).
+	if iq.Id != iqB.Id {
+		s.err = errors.New("iq bind result expected, got an iq with id " + iq.Id)
+		return
+	}
 
 	// TODO Check all elements
 	switch payload := iq.Payload.(type) {
@@ -375,6 +380,10 @@ func (s *Session) rfc3921Session() {
 		}
 		if iq.XMLName.Local != "iq" || iq.XMLName.Space != stanza.NSClient || iq.Type != stanza.IQTypeResult {
 			s.err = errors.New("expecting iq result after session open, got " + iq.XMLName.Space + " " + iq.XMLName.Local + " of type " + string(iq.Type))
+			return
+		}
+		if iq.Id != se.Id {
+			s.err = errors.New("expecting iq result after session open, got an iq with id " + iq.Id)
 			return
 		}
 	}
